@@ -14,6 +14,7 @@ mod nt;
 mod lspx;
 mod report;
 mod util;
+mod world;
 
 use report::{Ctx, Tier};
 
@@ -78,6 +79,7 @@ fn main() {
         let case = if v.get("case").is_some() { v["case"].clone() } else { v };
         let r = match id.as_str() {
             "C01" => checks::c01::replay(&case),
+            "C02" => checks::c02::replay(&case),
             "C05" => checks::c05::replay(&case),
             "C07" => checks::c07::replay(&case),
             "C08" => checks::c08::replay(&case),
@@ -109,6 +111,7 @@ fn main() {
     let mut ctx = Ctx::new(&id, tier);
     match id.as_str() {
         "C01" => checks::c01::run(&mut ctx),
+        "C02" => checks::c02::run(&mut ctx),
         "C05" => checks::c05::run(&mut ctx),
         "C07" => checks::c07::run(&mut ctx),
         "C08" => checks::c08::run(&mut ctx),
